@@ -107,6 +107,10 @@ def run(c):
     for m in ({"Name": "Alice", "name": "bob"}, {"id": "1", "ID": "2", "Id": "3", "iD": "4"}, {"a": "x", "A": "x"}, {"k": "v", "K": "V", "\u212a": "kelvin"}, {"caf\u00e9": "nfc", "cafe\u0301": "nfd"},
               {"a b": "1", "a+b": "2", "a%20b": "3"}, {"x": "1", "x ": "2", " x": "3"}, {"q": "a", "q[]": "b", "q[0]": "c"}, {"\u00df": "sharp", "ss": "double", "SS": "upper"}, {"i": "latin", "\u0130": "dotted", "\u0131": "dotless"}):
         maps.append((m, {"names:near-duplicates"}))
+    # names and values that a formatting / templating layer might treat as its own
+    for tok in ("{value}", "{name}", "{key}", "{0}", "{}", "{{x}}", "%s", "%d", "$1", "${x}", "$name", "&amp;", "&lt;", "\\n", "\\1", "<b>", "-->", "';--", "../x", "C:\\x"):
+        maps.append(({"total" + tok: "42", "plain": "v"}, {"names:template-lookalike"}))
+        maps.append(({"k": "a" + tok + "b", tok: tok}, {"names:template-lookalike"}))
     for cnt in (31, 32, 33, 63, 64, 65, 127, 128, 129, 255, 256, 257, 500) + (() if c.quick else (1000, 1024, 1025, 4000)):
         maps.append(({"f%d" % j: "v%d" % j for j in range(cnt)}, {"size:fields-%d" % cnt}))
     for cnt in (999, 1000, 1001, 1023, 1024, 1025, 1200):
